@@ -13,7 +13,8 @@ Vals2 == {"x", "y"}
 Vals3 == {"x", "yyyy", "zzzzzzz"}
 ValsL == {"x", "yyyy"}
 ActsC04 == {"CachePut", "CacheDelete", "CacheCommit", "CacheReset", "OvlCommit"}
-ActsC03 == {"OvlPut", "OvlDelete"}
+\* OvlCommit + non-empty initial disks: a block may rewrite exactly the value an earlier block persisted
+ActsC03 == {"OvlPut", "OvlDelete", "OvlCommit"}
 ActsC44 == {"ContractPut", "CacheCommit", "CacheReset", "OvlCommit", "Migrate", "Destroy", "Deploy", "DeployRefused"}
 \* ledger-level binding (transactions = runs of contract actions closed by CacheCommit/CacheReset, blocks = OvlCommit)
 ActsC44n == {"ContractPut", "CacheCommit", "CacheReset", "OvlCommit", "Migrate", "Destroy", "Deploy", "DeployRefused"}
